@@ -623,6 +623,29 @@ func main() {
 	fmt.Println(apply("config", 1), apply("config", -1), apply("death", 0), apply("create", 0), apply("other", 0))
 	fmt.Println(order)
 }`},
+	{name: "helper's value returned between constant operands", expand: []string{"classify", "find"}, src: `
+var errGone = errors.New("gone")
+var errLater = errors.New("later")
+type table struct{ m map[int]string; seen int }
+func (t *table) find(id int) (string, bool) { s, ok := t.m[id]; return s, ok }
+func (t *table) classify(id int) error {
+	if id <= t.seen {
+		return errGone
+	}
+	return errLater
+}
+func (t *table) get(id int) (string, error, int) {
+	if s, found := t.find(id); found {
+		return s, nil, 1
+	}
+	return "", t.classify(id), -1
+}
+func main() {
+	t := &table{m: map[int]string{1: "a"}, seen: 5}
+	fmt.Println(t.get(1))
+	fmt.Println(t.get(3))
+	fmt.Println(t.get(9))
+}`},
 }
 
 const inlineTestHeader = `package main
